@@ -61,8 +61,9 @@ print(json.dumps(res, indent=1)[:4000])
 if res.get('valid'):
     dst = f'/verif/seeded/{sid}'
     os.makedirs(dst, exist_ok=True)
-    shutil.copy(os.path.join(src, 'patch.diff'), dst)
-    shutil.copy(os.path.join(src, 'demo.py'), dst)
+    if not os.path.exists(os.path.join(dst, 'patch.diff')) or not os.path.samefile(os.path.join(src, 'patch.diff'), os.path.join(dst, 'patch.diff')):
+        shutil.copy(os.path.join(src, 'patch.diff'), dst)
+        shutil.copy(os.path.join(src, 'demo.py'), dst)
     meta['verified_by_me'] = {k: res[k] for k in ('repo_head', 'demo_on_clean_tree', 'suite_on_patched_tree', 'demo_on_patched_tree')}
     meta['what_i_ran'] = ['demo.py on a clean scratch worktree (must pass)', 'git apply patch.diff', 'the 250-test suite on the patched worktree (must pass)',
                           'demo.py on the patched worktree (must fail)', 'quick checks of ' + ', '.join(pids) + ' with VERIF_REPO=<patched worktree>, seeds 0 and 3']
